@@ -35,6 +35,10 @@ fn resolve(known: &BTreeSet<String>, current: &str, spec: &str) -> Option<BffFil
     None
 }
 
+pub fn resolve_known(known: &BTreeSet<String>, current: &str, spec: &str) -> Option<String> {
+    resolve(known, current, spec).map(|f| f.as_str().to_string())
+}
+
 struct Resolver<'a> {
     known: &'a BTreeSet<String>,
 }
@@ -236,7 +240,7 @@ pub fn run_det(req: &Sx) -> (Sx, Sx) {
         (reply, list(v))
     }
 }
-fn diff_hint(a: &str, b: &str) -> String {
+pub fn diff_hint(a: &str, b: &str) -> String {
     let i = a.bytes().zip(b.bytes()).take_while(|(x, y)| x == y).count();
     let lo = i.saturating_sub(60);
     let cut = |s: &str| s.chars().skip(lo).take(160).collect::<String>();
